@@ -6,3 +6,5 @@ import BalmProofs.Props.C18
 #print axioms Balm.TSys.attr_prod_of
 #print axioms Balm.TSys.attr_prod_iff
 #print axioms Balm.TSys.isAttr_tsOf
+#print axioms Balm.attr_prodNet
+#print axioms Balm.attr_prodNet_split
